@@ -27,7 +27,7 @@ pub fn lifetime(kind: Kind) -> impl Strategy<Value = History> {
         (100.0f32..300.0, 100.0f32..300.0, -3.0f32..3.0, -3.0f32..3.0, 25.0f32..60.0, 25.0f32..60.0),
         1usize..=2,
         2usize..=12,
-        0u8..6,
+        0u8..7,
         prop_oneof![2 => 10usize..60, 1 => 60usize..300],
         proptest::collection::vec((0.0f32..1.0, proptest::bool::weighted(0.9), proptest::bool::weighted(0.95), -0.03f32..0.03, -0.03f32..0.03, 0u8..250), 300),
         0.0f32..1.0,
@@ -43,7 +43,13 @@ pub fn lifetime(kind: Kind) -> impl Strategy<Value = History> {
             cfg.vis.own_collect = if nobj == 1 { 0.0 } else { cfg.vis.own_collect };
             let mut objs = vec![Obj { x0: x, y0: y, vx, vy, ax: 0.0, ay: 0.0, w, h, growth: 0.0, angle: None, omega: 0.0, proto: 0 }];
             if nobj == 2 {
-                objs.push(Obj { x0: x + 900.0, y0: y + 700.0, vx: -vx, vy, ax: 0.0, ay: 0.0, w: h, h: w, growth: 0.0005, angle: Some(0.3), omega: 0.001, proto: 1 });
+                // the second object is far away, or (with an own-area threshold) a companion that
+                // travels with the first one and partly covers it
+                if cfg.vis.own_collect > 0.0 && qmode % 2 == 0 {
+                    objs.push(Obj { x0: x + 0.45 * w, y0: y + 0.2 * h, vx, vy, ax: 0.0, ay: 0.0, w: w * 0.9, h: h * 1.1, growth: 0.0, angle: Some(0.2), omega: 0.0, proto: 1 });
+                } else {
+                    objs.push(Obj { x0: x + 900.0, y0: y + 700.0, vx: -vx, vy, ax: 0.0, ay: 0.0, w: h, h: w, growth: 0.0005, angle: Some(0.3), omega: 0.001, proto: 1 });
+                }
             }
             let thr = cfg.vis.q_collect;
             let mut ops = vec![];
@@ -56,6 +62,7 @@ pub fn lifetime(kind: Kind) -> impl Strategy<Value = History> {
                     2 => qbase,                                  // constant
                     3 => (thr + (r - 0.5) * 0.2).clamp(0.0, 1.0), // around the collect threshold
                     4 => ((k % 7) as f32) / 6.0,                  // saw tooth with equal values
+                    6 => 0.5 + ((k * 7919) % 13) as f32 * 2e-6,   // different but closer than 1e-5
                     _ => *r,
                 };
                 let mut dets = vec![];
